@@ -106,16 +106,16 @@ def build(tier, seed, per_harness=4):
         seqs.append((6, p, [("read_u32", (n,)), ("commit", ()), ("read_u32", (9,))]))
     # 2. one step from every buffer fill level: prefix x phase x every symbol
     steps = [(pre, p, s) for pre in PREFIXES for p in range(8) for s in SYMS]
-    steps = rnd.sample(steps, len(steps) // 2 if th else 28)
+    steps = rnd.sample(steps, len(steps) // 6 if th else 28)
     for pre, p, s in steps:
         seqs.append((6, p, pre + [s]))
     # 3. ordered pairs of fixed operations followed by a third symbol
     pairs = [(a, b) for a in FIXED for b in FIXED]
-    for (a, b) in rnd.sample(pairs, 600 if th else 10):
+    for (a, b) in rnd.sample(pairs, 300 if th else 10):
         c = rnd.choice(SYMS)
         seqs.append((6, rnd.randrange(8), [a, b] + ([c] if rnd.random() < 0.5 else [])))
     # 4. random longer sequences (length 3..6)
-    for i in range(150 if th else 4):
+    for i in range(80 if th else 4):
         k = rnd.randint(3, 6)
         seqs.append((6, rnd.randrange(8), [rnd.choice(FIXED) for _ in range(k - 1)] + [rnd.choice(SYMS)]))
     # 5. short sources: end-of-data straddling (lengths 0..5)
